@@ -1481,8 +1481,8 @@ def run_scenario(ctx, batch, sc, idx, tag):
         do_send(ctx, batch, sc, idx, tag)
     elif sc["kind"] == "recv":
         do_recv(ctx, batch, sc, idx, tag)
-    elif sc["kind"] == "long":
-        pass
+    elif sc["kind"] == "session":
+        judge_session(ctx, run_session(sc["which"]))
 
 
 def run(ctx):
